@@ -40,6 +40,7 @@ type stub struct {
 	plan    *StubPlan
 	cc      craftCtx
 	special map[uint64][]int8
+	digest  []int8 // b1t6 of the BLAKE2b-256 digest of the data of the call (192 trits)
 	logCh   chan uint64
 }
 
